@@ -8,10 +8,10 @@ also part of the Lean model dump (Report) compared by trace refinement.
 """
 from .. import refine, runs
 
-MODULE = 'PyhmsVerif.Props.C20Lines'
-THEOREMS = ['C20.line_fields', 'C20.summary_fields', 'C20.levels_sum_to_total', 'C20.marker_iff', 'C20.marker_on_best_deme', 'C20.childLines_sound', 'C20.lines_root', 'C20.lines_complete', 'C20.chain_displayed']
+MODULE = 'PyhmsVerif.Props.C20Run'
+THEOREMS = ['C20.line_fields', 'C20.summary_fields', 'C20.levels_sum_to_total', 'C20.marker_iff', 'C20.marker_on_best_deme', 'C20.childLines_sound', 'C20.lines_root', 'C20.lines_complete', 'C20.chain_displayed', 'C20.C20_lines_complete_run', 'R5S.r5s_mem']
 LEVEL = 'proof'
-LEVEL_TEXT = 'Theorems about the report record of the Lean tree model (all states): header and level sections show the tree counters (summary_fields), per-level evaluation counts add up to the total (levels_sum_to_total), the *** marker is set iff the deme best fitness equals the tree best fitness and the deme holding the tree best is always marked, also at fitness 0 (marker_iff, marker_on_best_deme), every displayed line is the line of a deme that has run (childLines_sound). Tie: the parsed real summary()/tree() text is diffed with the model record at every boundary of every traced run (header, per-level counts incl. No-demes-available, displayed demes, class, evaluations, marker); purity of all accessors (no objective call, no state change, no RNG use, same answer twice) and number formatting by direct monitors. lines_complete: in a well-formed tree with consistent children lists (every reachable state: C07_wf, C07_children) every non-root deme that has run at least one metaepoch, and whose ancestors below the root have too, has its line in the rendered tree (the converse of childLines_sound).'
+LEVEL_TEXT = 'Theorems about the report record of the Lean tree model (all states): header and level sections show the tree counters (summary_fields), per-level evaluation counts add up to the total (levels_sum_to_total), the *** marker is set iff the deme best fitness equals the tree best fitness and the deme holding the tree best is always marked, also at fitness 0 (marker_iff, marker_on_best_deme), every displayed line is the line of a deme that has run (childLines_sound). Tie: the parsed real summary()/tree() text is diffed with the model record at every boundary of every traced run (header, per-level counts incl. No-demes-available, displayed demes, class, evaluations, marker); purity of all accessors (no objective call, no state change, no RNG use, same answer twice) and number formatting by direct monitors. lines_complete: in a well-formed tree with consistent children lists (every reachable state: C07_wf, C07_children) every non-root deme that has run at least one metaepoch, and whose ancestors below the root have too, has its line in the rendered tree (the converse of childLines_sound). NEW: C20_lines_complete_run — in every state reachable from a freshly constructed tree the rendered tree contains the line of EVERY non-root deme that has run at least one metaepoch (the hypothesis of lines_complete about ancestors is discharged by C07_ancestors_ran). R5S.r5s_mem: r5s_solutions returns only individuals it was given.'
 LEVEL_NOTE = 'Trusted: Lean kernel + standard axioms; the regex parser of the report text; accessor purity and float formatting are sampled (monitors), not proved: in the model a report is a function of the state, so purity holds by construction and carries no information about the Python accessors.'
 TECHNIQUE = 'Lean 4 theorems about the report record of the tree model + trace refinement (parsed real reports vs model record at every boundary) + accessor purity monitors'
 RULE = "case = one traced run of a random configuration (1-3 levels, engine per level from the full list, every shipped GSC/LSC kind plus user-defined ones, both stock sprout mechanisms and user-composed chains, hibernation on/off, both directions, decimal boxes, optional cutoff/precision/stats wrappers, shared or per-level problems); non-trivial = run with >= 2 demes and >= 2 metaepochs; distinct by configuration hash"
@@ -24,7 +24,17 @@ def run(ctx):
     return [
         refine.refine_batch(ctx, ctx.size(120, 1500), force=FORCE, pid=PID, name="trace-refinement(Tree.step vs DemeTree.run)"),
         runs.monitor_batch(ctx, PID, ctx.size(250, 3000), force=FORCE),
+        _r5s(ctx, ctx.size(150, 3000), 5),
     ]
+
+
+def _r5s(ctx, n, salt):
+    """r5s_solutions' selection against the Lean model; only the C20 signatures (returns what it was given, changes nothing) count here"""
+    from .. import r5s
+
+    sl = r5s.batch(ctx, ctx.rng(salt), n, name="R5SSelection-vs-R5S.r5sD(returns-given-individuals,no-side-effect)")
+    sl.violations = [v for v in sl.violations if v["signature"].startswith("C20/")]
+    return sl
 
 
 def search(ctx, broken):
